@@ -466,7 +466,10 @@ class Interp(object):
             av = self.addr_of(regs, i)
             k = self.slot_key(av[0]) if not av[1] else None
             if k is not None and op == "MOV64rm":
-                v = stack.get(k, TOP)
+                v = stack.get(k)
+                if v is None:
+                    # never-written slot of the caller's frame = a stack-passed argument's entry value
+                    v = ("init", "ARG@%d" % k[1], 0) if (k[0] == "sp" and k[1] >= 8) else TOP
             elif av[0][0] == "addr" and any(r[3] in ("R_X86_64_GOTPCREL", "R_X86_64_GOTPCRELX", "R_X86_64_REX_GOTPCRELX") for r in i.rel):
                 v = ("addr", av[0][1], 0)
             else:
